@@ -370,5 +370,6 @@ func init() {
 		Exec:        execC04,
 		Coord:       coordC04,
 		CaseTimeout: 150 * time.Second,
+		NoFailFast:  true,
 	})
 }
